@@ -31,13 +31,12 @@ uint8_t Encoder::getStreamId() const
 void Encoder::setMessageType(const Packet& packet){
     messageType = packet.getMessageType();
     cmpFrameTemplate.clear();
-    addNewCMPFrame(packet);
+    closeCMPFrame();
 }
 
 std::vector<std::vector<uint8_t>> Encoder::getEncodedData()
 {
-    if (!cmpFrames.empty())
-        cmpFrames.back().resize(std::max(cmpFrames.back().size() - bytesLeft, minBytesPerMessage), 0);
+    closeCMPFrame();
     auto frames = std::move(cmpFrames);
     clearEncodingMetadata(false);
     return frames;
@@ -91,7 +90,7 @@ void Encoder::putPacket(const Packet& packet)
         bytesLeft -= bytesToAdd;
 
         if (isSegmentedFlag == SegmentType::lastSegment)
-            addNewCMPFrame(packet);
+            closeCMPFrame();
     }
 
 }
@@ -111,10 +110,17 @@ void Encoder::createCmpFrameTemplate(const Packet& packet)
     cmpHeader->setStreamId(streamId);
 }
 
-void Encoder::addNewCMPFrame(const Packet& packet)
+void Encoder::closeCMPFrame()
 {
     if (!cmpFrames.empty())
         cmpFrames.back().resize(std::max(cmpFrames.back().size() - bytesLeft, minBytesPerMessage), 0);
+
+    bytesLeft = 0;
+}
+
+void Encoder::addNewCMPFrame(const Packet& packet)
+{
+    closeCMPFrame();
 
     if (cmpFrameTemplate.empty())
         createCmpFrameTemplate(packet);
@@ -138,13 +144,13 @@ void Encoder::addNewDataHeader(const Packet& packet, uint16_t bytesToAdd, Segmen
 
 bool Encoder::checkIfSegmented(const Packet& packet)
 {
-    bool isSegmented = (!cmpFrames.empty() && bytesLeft < sizeof(MessageHeader) + packet.getPayloadLength());
-    if (isSegmented)
-    {
-        addNewCMPFrame(packet);
-        isSegmented = (!cmpFrames.empty() && bytesLeft < sizeof(MessageHeader) + packet.getPayloadLength());
-    }
-    return isSegmented;
+    const size_t messageSize = sizeof(MessageHeader) + packet.getPayloadLength();
+    if (bytesLeft >= messageSize)
+        return false;
+
+    // Does not fit into the current frame (or there is none yet): segment only if a new one is too small as well
+    addNewCMPFrame(packet);
+    return bytesLeft < messageSize;
 }
 
 Encoder::SegmentType Encoder::buildSegmentationFlag(
